@@ -99,6 +99,10 @@ func Alphabet(names ...string) []Letter {
 	reg(Letter{Name: "ADD v6 q@D ->1@V", NI: D, Op: add, Entry: ribx.V6Entry("2001:db8::/32", 1, V, nil)})
 	reg(Letter{Name: "ADD mpls 100@D ->1@V", NI: D, Op: add, Entry: ribx.MPLSEntry(100, 1, V, nil)})
 	reg(Letter{Name: "DELETE v6 q@D", NI: D, Op: del, Entry: ribx.V6Entry("2001:db8::/32", 0, "", nil)})
+	// a second IPv6 key in a valid but not RFC 5952-canonical spelling (the client uses it consistently)
+	reg(Letter{Name: "ADD v6 Q@D ->1", NI: D, Op: add, Entry: ribx.V6Entry("2001:DB8:0:0::/48", 1, "", nil)})
+	reg(Letter{Name: "ADD v6 Q@D ->2", NI: D, Op: add, Entry: ribx.V6Entry("2001:DB8:0:0::/48", 2, "", nil)})
+	reg(Letter{Name: "DELETE v6 Q@D", NI: D, Op: del, Entry: ribx.V6Entry("2001:DB8:0:0::/48", 0, "", nil)})
 	// mpls
 	reg(Letter{Name: "ADD mpls 100@D ->1", NI: D, Op: add, Entry: ribx.MPLSEntry(100, 1, "", nil)})
 	reg(Letter{Name: "ADD mpls 100@D ->2", NI: D, Op: add, Entry: ribx.MPLSEntry(100, 2, "", nil)})
